@@ -104,6 +104,7 @@ META_PARAMS = {
     'mt': ['text/html', 'TEXT/HTML'],
     'second': [0, 1],                                            # a second, contradicting Content-Type meta after it
     'pre': [0, 1],                                               # a <meta name=...> whose content mentions a charset before it
+    'lead': [0, 2100],                                           # length of a comment in front of the meta (the head is not bounded)
 }
 META_CS = ['utf-8', 'iso-8859-1', 'ISO-8859-1', 'ISO_8859-15', None]            # None = Content-Type meta without charset
 META_DEFAULT = {k: v[0] for k, v in META_PARAMS.items()}
@@ -177,6 +178,8 @@ def render_meta(m):
         return '<meta ' + (he + ' ' + co if m['order'] == 'he' else co + ' ' + he) + m['close']
 
     s = ''
+    if m.get('lead'):
+        s += '<!-- ' + 'x' * m['lead'] + ' -->'
     if m['pre']:
         s += '<meta name="generator" content="x; charset=koi8-r">'
     s += one(m['cs'])
